@@ -29,8 +29,9 @@ class C28(EngineACheck):
         feats = set(ALL_FEATURES) - {"forkjoin", "async"}
         cfg = GenConfig(features=feats, p_error=0.15, modes=("thread", "thread", "process"),
                         p_dup=0.2, max_tasks=6,
-                        task_options=[{"check_valid": "shallow"}, {"cache_scope": "CSE"}],
-                        p_task_option=0.2)
+                        task_options=[{"check_valid": "shallow"}, {"cache_scope": "CSE"},
+                                      {"executor": "nope"}],  # (rejected before any submission)
+                        p_task_option=0.25)
         if ch.choice(4, "program-family") == 3:
             # handle-passing workflows: preparing a call forks the handle (a recorded state), which
             # is part of what decides whether the call is cached
